@@ -49,8 +49,7 @@ Section Run.
   Variable Q : attrs -> Prop.
   Hypothesis P_nil : P [].
   Hypothesis P_record : forall k d t, P t -> Q k -> P (record L k d t).
-  Hypothesis P_record_ref : forall k d t t', P t -> Q k -> record_ref L k d t = Some t' -> P t'.
-  Hypothesis P_merge : forall t e t', P t -> Q (fst e) -> merge_in L t e = Some t' -> P t'.
+  Hypothesis P_merge : forall t e, P t -> Q (fst e) -> P (merge_in L t e).
   Hypothesis P_perm : forall a b, Permutation a b -> P a -> P b.
   Hypothesis P_keys : forall t e, P t -> In e t -> Q (fst e).
 
@@ -58,22 +57,10 @@ Section Run.
   Definition op_good (o : op) : Prop :=
     match o with ORec kvs _ => Q (mk_attrs (c_filter c) kvs) | ORec0 _ => Q [] | OCollect _ => True end.
 
-  Lemma P_merge_all es t t' : P t -> (forall e, In e es -> Q (fst e)) -> merge_all L t es = Some t' -> P t'.
+  Lemma P_merge_all es t : P t -> (forall e, In e es -> Q (fst e)) -> P (merge_all L t es).
   Proof.
-    revert t. induction es as [|e es IH]; intros t Ht Hq; cbn.
-    - intros E. inversion E. subst. assumption.
-    - destruct (merge_in L t e) eqn:Em; [|discriminate]. apply IH; [|intros x Hx; apply Hq; right; assumption].
-      eapply P_merge; eauto. apply Hq. left. reflexivity.
-  Qed.
-
-  (* keys that equal themselves never make the merge dereference a null aggregation *)
-  Definition Qself : Prop := forall k, Q k -> self_eq k = true.
-  Lemma merge_all_no_crash es t : (forall e, In e es -> self_eq (fst e) = true) -> merge_all L t es <> None.
-  Proof.
-    revert t. induction es as [|[k d] es IH]; intros t Hq; cbn [merge_all]; [discriminate|].
-    destruct (merge_in L t (k, d)) eqn:Em.
-    - apply IH. intros x Hx. apply Hq. right. assumption.
-    - exfalso. eapply merge_in_no_crash; [|exact Em]. apply (Hq (k, d)). left. reflexivity.
+    unfold merge_all. revert t. induction es as [|e es IH]; intros t Ht Hq; cbn; [assumption|].
+    apply IH; [|intros x Hx; apply Hq; right; assumption]. apply P_merge; [assumption|]. apply Hq. left. reflexivity.
   Qed.
 
   Definition SP (s : storage) : Prop :=
@@ -150,7 +137,6 @@ Section Run.
     match res with
     | CReport t => P t /\ total t = sum_vals window /\ SP s' /\ G s' hist (set_nth i (length hist) marks)
     | CNoCb => sum_vals window = 0 /\ SP s' /\ G s' hist (set_nth i (length hist) marks)
-    | CCrash => ~ Qself
     | CReject => True
     end.
   Proof.
@@ -271,23 +257,19 @@ Section Run.
             + rewrite !nth_set_nth_other by assumption. unfold unrep2. rewrite nth_set_nth_other by assumption.
               destruct (G7 j Hj) as [Ha' [Hb' Hc']]. split; [assumption|]. split; [|exact Hc'].
               rewrite Hu1sum by assumption. rewrite <- Hb'. unfold pend. lia. }
-        destruct (merge_all L [] (concat mine)) as [m1|] eqn:Em1.
-        2:{ intros X; apply pair_equal_spec in X; destruct X as [<- <-]. intros Hq. revert Em1. apply merge_all_no_crash.
-            intros e He. apply Hq. eapply P_concat; eauto. }
-        assert (Hm1P : P m1) by (eapply P_merge_all; [exact P_nil| |exact Em1]; intros e He; eapply P_concat; eauto).
+        set (m1 := merge_all L [] (concat mine)).
+        assert (Hm1P : P m1) by (apply P_merge_all; [exact P_nil|]; intros e He; eapply P_concat; eauto).
         assert (Hm1tot : total m1 = pend s i).
-        { rewrite (merge_all_total _ _ _ _ Em1), total_nil, Hminesum. lia. }
+        { unfold m1. rewrite merge_all_total, total_nil, Hminesum. lia. }
         destruct (G7 i Hi) as [Ha [Hb Hc]].
         destruct (nth i (s_last s) None) as [lt|] eqn:Elast.
         * assert (HltP : P lt).
           { pose proof (Forall_nth_d _ i (s_last s) None Hpl I) as Hx. cbn in Hx. rewrite Elast in Hx. exact Hx. }
           destruct (nth i temps false) eqn:Ecu.
-          -- destruct (merge_all L m1 lt) as [m|] eqn:Em.
-             2:{ intros X; apply pair_equal_spec in X; destruct X as [<- <-]. intros Hq. revert Em. apply merge_all_no_crash.
-                 intros e He. apply Hq. eapply P_keys; eauto. }
-             assert (HmP : P m) by (eapply P_merge_all; [exact Hm1P| |exact Em]; intros e He; eapply P_keys; eauto).
+          -- set (m := merge_all L m1 lt).
+             assert (HmP : P m) by (apply P_merge_all; [exact Hm1P|]; intros e He; eapply P_keys; eauto).
              assert (Hmtot : total m = sum_vals hist).
-             { rewrite (merge_all_total _ _ _ _ Em), Hm1tot, Hb. specialize (Hc eq_refl). unfold lastv in Hc. rewrite Elast in Hc.
+             { unfold m. rewrite merge_all_total, Hm1tot, Hb. specialize (Hc eq_refl). unfold lastv in Hc. rewrite Elast in Hc.
                rewrite Hc. rewrite (sum_vals_split (nth i marks O) hist). lia. }
              destruct (is_perm rw m) eqn:Erw; [|intros X; apply pair_equal_spec in X; destruct X as [<- <-]; exact I].
              pose proof (is_perm_perm _ _ Erw) as Hrw.
@@ -334,7 +316,6 @@ Section Run.
             match res with
             | CReport t => P t /\ total t = sum_vals window /\ results_ok rs' r hist (set_nth i (length hist) marks)
             | CNoCb => sum_vals window = 0 /\ results_ok rs' r hist (set_nth i (length hist) marks)
-            | CCrash => ~ Qself /\ rs' = []
             | CReject => rs' = []
             end
         end
@@ -351,20 +332,15 @@ Section Run.
     - apply IH; [| |assumption].
       + unfold st_record. apply SP_interval; [assumption|]. apply P_record; [exact (proj1 HSP)|exact Hg].
       + unfold st_record. apply G_record; [assumption|]. rewrite record_total, accepted_counts. reflexivity.
-    - unfold st_record0. destruct (record_ref (c_limit c) [] (accepted (c_mono c) v) (s_interval s)) as [t|] eqn:Er.
-      + apply IH; [| |assumption].
-        * apply SP_interval; [assumption|]. eapply P_record_ref; [exact (proj1 HSP)|exact Hg|exact Er].
-        * apply G_record; [assumption|]. rewrite (record_ref_total _ _ _ _ _ Er), accepted_counts. reflexivity.
-      + (* the empty map equals itself: record_ref cannot fail *)
-        exfalso. unfold record_ref in Er. destruct (tfind [] (s_interval s)); [discriminate|].
-        destruct (is_overflow (c_limit c) (s_interval s)); [discriminate|]. cbn in Er. discriminate.
+    - apply IH; [| |assumption].
+      + unfold st_record0. apply SP_interval; [assumption|]. apply P_record; [exact (proj1 HSP)|exact Hg].
+      + unfold st_record0. apply G_record; [assumption|]. rewrite record_total, accepted_counts. reflexivity.
     - fold temps. fold ncol. destruct (ncol <=? i)%nat eqn:Ei; [reflexivity|]. apply Nat.leb_gt in Ei.
       destruct walks as [|iw ws]; [reflexivity|].
       match goal with |- context [st_collect ?a ?b ?c0 ?d ?e] => destruct (st_collect a b c0 d e) as [s' res] eqn:Ec end.
       pose proof (collect_step s hist marks i iw _ s' res Ei HSP HG Ec) as Hstep. cbv zeta in Hstep.
-      destruct res as [|t| |]; cbv iota beta in Hstep |- *; try reflexivity.
+      destruct res as [|t|]; cbv iota beta in Hstep |- *; try reflexivity.
       + destruct Hstep as [H1 [H2 H3]]. split; [assumption|]. apply IH; assumption.
       + destruct Hstep as [H1 [H2 [H3 H4]]]. split; [assumption|]. split; [assumption|]. apply IH; assumption.
-      + split; [assumption|reflexivity].
   Qed.
 End Run.
